@@ -26,6 +26,12 @@ static void dec_one(int codec, const unsigned char *text, size_t tlen, const cha
     v_emit_bytes("ign", (const unsigned char *) (ign ? ign : ""), ign ? strlen(ign) : 0);
     fprintf(v_out, ",\"cap\":%zu,\"wantEnd\":%s,\"ret\":%d,\"n\":%zu,", cap, want_end ? "true" : "false", ret, n);
     v_emit_bytes("bin", bin, (ret == 0 && n <= cap) ? n : 0);
+    /* the form that does not ask for the decoded length (bin_len = NULL): same verdict, same bytes, same end pointer */
+    int nullsame; { unsigned char *b2 = malloc(cap + 1), *b1 = malloc(cap + 1); memcpy(b1, bin, cap); memset(bin, 0xEE, cap); const char *end2 = NULL; int r2;
+      if (codec == 0) r2 = sodium_hex2bin(bin, cap, (const char *) t, tlen, ign, NULL, want_end ? &end2 : NULL);
+      else r2 = sodium_base642bin(bin, cap, (const char *) t, tlen, ign, NULL, want_end ? &end2 : NULL, codec);
+      memcpy(b2, bin, cap); nullsame = r2 == ret && end2 == end && (ret != 0 || n > cap || memcmp(b1, b2, n) == 0); free(b1); free(b2); }
+    fprintf(v_out, ",\"nullsame\":%s", nullsame ? "true" : "false");
     fprintf(v_out, ",\"end\":%ld}\n", want_end ? (long) (end - (const char *) t) : -1L);
     v_gfree(&gt); v_gfree(&gb);
 }
@@ -57,6 +63,11 @@ int main(int argc, char **argv) {
             if (len && vrng_below(&r, 4) == 0) memset(bin, vrng_below(&r, 2) ? 0xff : 0x00, len);
             size_t elen = codec == 0 ? len * 2 + 1 : sodium_base64_encoded_len(len, codec);
             size_t macro = codec == 0 ? elen : sodium_base64_ENCODED_LEN(len, codec);
+            /* the documented macro takes expressions: sums, differences, shifts, conditionals must give the same length as a plain variable */
+            if (codec != 0) { size_t ha = len / 3, hb = len - ha, dbl = len * 2, one = 1; int vv = codec;
+                if (sodium_base64_ENCODED_LEN(ha + hb, vv) != macro || sodium_base64_ENCODED_LEN(dbl - len, codec) != macro || sodium_base64_ENCODED_LEN(len << 0 | 0, codec) != macro
+                    || sodium_base64_ENCODED_LEN(one ? len : one, codec) != macro || sodium_base64_ENCODED_LEN(ha + hb, one ? vv : 0) != macro
+                    || ((len & 1) == 0 && sodium_base64_ENCODED_LEN(len >> 1 << 1, codec) != macro)) macro = (size_t) -1; }
             vguard g = v_galloc(elen, 1); memset(g.p, 0x7e, elen);
             char *ret = codec == 0 ? sodium_bin2hex((char *) g.p, elen, bin, len) : sodium_bin2base64((char *) g.p, elen, bin, len, codec);
             size_t tl = strnlen((char *) g.p, elen);
